@@ -209,7 +209,7 @@ package proto
 // data source r.data (see /verif/spec/io.spec).
 
 //@ delegate (Reader) data
-//@ valid (r *Reader): r != nil ==> r.data != nil && r.b != nil
+//@ valid (r *Reader): r != nil ==> r.data != nil && r.b != nil && 0 <= r.pos && r.pos <= r.end
 
 //@ -- rdOK: the stream effects of reading exactly n bytes, or failing
 //@ spec func rdOK(r Val, err Val, n Int) Bool = (err == nil ==> r.pos == old(r.pos) + n && r.failed == old(r.failed)) && (err != nil ==> r.failed) && (old(r.pos) + n > r.end ==> err != nil) && old(r.pos) <= r.pos && r.pos <= r.end && (n == 0 ==> err == nil)
